@@ -25,7 +25,7 @@ FAMILY = {
   "quick": [("order", ["A"]), ("remove", ["A"]), ("weak", ["A"]), ("err", ["A"]),
             ("bulk", ["A"])],
   "thorough": [("orderM", ["A"]), ("removeM", ["A", "B"]), ("weakM", ["A"]), ("errM", ["A"]),
-               ("bulkM", ["A", "B"])],
+               ("bulkM", ["A", "B"]), ("weakP", ["A"])],
 }
 BIG_MC = ["orderL", "removeL", "bulkL"] # thorough: property only, no export
 COVER = {
@@ -33,6 +33,8 @@ COVER = {
   "remove": ["Subscribe", "Unsubscribe", "RaiseBegin", "Return", "RaiseSimple"],
   "weak": ["Subscribe", "AutoBind", "Unsubscribe", "DropOwner", "RaiseBegin", "Return", "RaiseSimple"],
   "err": ["Subscribe", "RaiseBegin", "Return", "RaiseSimple"],
+  # thorough: the quick-size weak configuration with autoBindEvents(prefix=...)
+  "weakP": ["Subscribe", "AutoBind", "Unsubscribe", "DropOwner", "RaiseBegin", "Return", "RaiseSimple"],
   # removeListeners(list) / clearHandlers(); UnsubscribeManyAny is the named
   # wrapper of \E items : UnsubscribeMany(items) (TLC names coverage by it)
   "bulk": ["Subscribe", "UnsubscribeManyAny", "ClearAll", "RaiseBegin", "Return", "RaiseSimple"],
